@@ -145,6 +145,10 @@ impl<'a> Model<'a> {
         }
     }
 
+    fn faults_ref(&self) -> &BTreeMap<Key, Fault> {
+        &self.faults
+    }
+
     fn mistake(&mut self, kind: &'static str) {
         self.mistakes.push(kind);
     }
@@ -152,10 +156,10 @@ impl<'a> Model<'a> {
     // ---------------------------------------------------------------------------------------
     // faults
 
-    fn sel_range(&self, sel: &SpanSel, item: Option<&Item>) -> SpanExp {
-        match (sel, item) {
-            (SpanSel::OwnPath, Some(it)) => SpanExp::Exact(it.r_path),
-            (SpanSel::OwnValue, Some(it)) => SpanExp::Exact(it.r_value.unwrap_or(it.r_path)),
+    fn sel_range(&self, sel: &SpanSel, own: Option<(Range, Range)>) -> SpanExp {
+        match (sel, own) {
+            (SpanSel::OwnPath, Some((p, _))) => SpanExp::Exact(p),
+            (SpanSel::OwnValue, Some((_, v))) => SpanExp::Exact(v),
             (SpanSel::Remote(pos), _) => match self.remote_ranges.get(pos) {
                 Some(r) => SpanExp::Exact(*r),
                 None => SpanExp::Unset,
@@ -165,6 +169,10 @@ impl<'a> Model<'a> {
     }
 
     fn fire(&mut self, key: &Key, fault: &Fault, item: Option<&Item>) -> M<Vec<Leaf>> {
+        self.fire_own(key, fault, item.map(|it| (it.r_path, it.r_value.unwrap_or(it.r_path))))
+    }
+
+    fn fire_own(&mut self, key: &Key, fault: &Fault, item: Option<(Range, Range)>) -> M<Vec<Leaf>> {
         let label = key.label();
         self.fired.push((label.clone(), fault.kind_name()));
         Ok(match fault {
@@ -619,6 +627,18 @@ impl<'a> Model<'a> {
         cpost: Option<&(Post, u32)>,
         mut st: StructState,
     ) -> M<Conv> {
+        self.finish_checks(fields, cdefault.is_some(), &mut st)?;
+        if !st.leaves.is_empty() {
+            return Ok(Err(st.leaves));
+        }
+        let inherited = self.container_default(fields, cdefault)?;
+        let out = self.build_fields(fields, &inherited, &mut st)?;
+        let val = Val::Struct(name.to_string(), out);
+        self.container_post(cpost, val)
+    }
+
+    /// The flatten hand-off and the presence checks: everything that can still add leaves.
+    pub fn finish_checks(&mut self, fields: &[FieldDesc], has_container_default: bool, st: &mut StructState) -> M<()> {
         if let Some(ff) = fields.iter().find(|f| f.flatten) {
             match self.conv_from_list(&ff.ty, &st.flat.clone())? {
                 Ok(v) => {
@@ -629,7 +649,7 @@ impl<'a> Model<'a> {
             st.seen.insert(ff.rust);
         }
         for fd in fields {
-            let has_default = fd.default != FieldDefault::None || cdefault.is_some() || fd.skip;
+            let has_default = fd.default != FieldDefault::None || has_container_default || fd.skip;
             if !fd.multiple && !has_default && !st.seen.contains(fd.rust) {
                 match self.from_none(&fd.ty) {
                     Some(v) => {
@@ -642,11 +662,12 @@ impl<'a> Model<'a> {
                 }
             }
         }
-        if !st.leaves.is_empty() {
-            return Ok(Err(st.leaves));
-        }
-        // container-level fallback value, evaluated once, only on the success path
-        let mut inherited: BTreeMap<&str, Val> = BTreeMap::new();
+        Ok(())
+    }
+
+    /// container-level fallback value, evaluated once, only on the success path
+    pub fn container_default(&mut self, fields: &[FieldDesc], cdefault: Option<&ContainerDefault>) -> M<BTreeMap<&'static str, Val>> {
+        let mut inherited: BTreeMap<&'static str, Val> = BTreeMap::new();
         match cdefault {
             Some(ContainerDefault::Trait(site)) => {
                 self.seam_infallible(*site, "container_default")?;
@@ -667,6 +688,10 @@ impl<'a> Model<'a> {
             }
             None => {}
         }
+        Ok(inherited)
+    }
+
+    pub fn build_fields(&mut self, fields: &[FieldDesc], inherited: &BTreeMap<&'static str, Val>, st: &mut StructState) -> M<Vec<(String, Val)>> {
         let mut out = Vec::new();
         for fd in fields {
             let v = if fd.multiple {
@@ -704,7 +729,10 @@ impl<'a> Model<'a> {
             };
             out.push((fd.rust.to_string(), v));
         }
-        let val = Val::Struct(name.to_string(), out);
+        Ok(out)
+    }
+
+    fn container_post(&mut self, cpost: Option<&(Post, u32)>, val: Val) -> M<Conv> {
         match cpost {
             Some((Post::AndThen, site)) => Ok(match self.seam_site(*site, "container_and_then")? {
                 Ok(()) => Ok(val),
@@ -884,4 +912,328 @@ impl StructState {
 
 fn dummy_item() -> Item {
     Item { id: 0, name: String::new(), form: Form::Word, r_item: crate::input::ZERO, r_path: crate::input::ZERO, r_value: None }
+}
+
+// ------------------------------------------------------------------------------------------------
+// element-level receivers
+
+use crate::input::{Attr, Body, FieldDoc, FieldsDoc, TParamDoc, VariantDoc};
+
+pub struct ElemView<'x> {
+    pub attrs: &'x [Attr],
+    pub ident: Option<&'x str>,
+    pub body: Option<&'x Body>,
+    pub generics: &'x [TParamDoc],
+    pub vfields: Option<&'x FieldsDoc>,
+}
+
+fn leading_ident(text: &str) -> &str {
+    let end = text.find(|c: char| !(c.is_ascii_alphanumeric() || c == '_')).unwrap_or(text.len());
+    &text[..end]
+}
+
+fn shape_of(f: &FieldsDoc) -> (&'static str, &'static str) {
+    match f {
+        FieldsDoc::Unit => ("unit", "no fields"),
+        FieldsDoc::Named(_) => ("named", "named fields"),
+        FieldsDoc::Tuple(fs) if fs.len() == 1 => ("newtype", "one unnamed field"),
+        FieldsDoc::Tuple(_) => ("tuple", "unnamed fields"),
+    }
+}
+
+fn shape_leaf(desc: &str) -> Leaf {
+    Leaf { msg: Msg::Prefix(format!("Unsupported shape `{}`", desc)), path: vec![], span: SpanExp::Unset, kind: "shape" }
+}
+
+impl<'a> Model<'a> {
+    pub fn elem_parse(&mut self, name: &str, view: &ElemView) -> M<Conv> {
+        let d = crate::schema::elems().get(name).expect("element receiver in schema").clone();
+        if let Some(inner) = d.newtype_of {
+            return self.elem_parse(inner, view);
+        }
+        let mut st = StructState::new(&d.fields);
+        let mut forwarded = 0u64;
+        for a in view.attrs {
+            let (aname, item) = match a {
+                Attr::Meta(it) => (strip_colon(&it.name).to_string(), Some(it)),
+                Attr::Foreign(t) => (leading_ident(t).to_string(), None),
+            };
+            if d.attr_names.contains(&aname.as_str()) {
+                if let Some(it) = item {
+                    match &it.form {
+                        Form::NV(_) => {
+                            self.mistake("attr_name_value");
+                            st.leaves.push(Leaf {
+                                msg: Msg::Prefix("Name-value arguments are not supported".into()),
+                                path: vec![],
+                                span: SpanExp::Within(it.r_item),
+                                kind: "attr_form",
+                            });
+                        }
+                        Form::Word => {}
+                        Form::BadList(_) => {
+                            self.mistake("malformed_list");
+                            st.leaves.push(Leaf { msg: Msg::Any, path: vec![], span: SpanExp::Unchecked, kind: "malformed_list" });
+                        }
+                        Form::List(items) => {
+                            if !items.is_empty() {
+                                self.core_loop(&d.fields, d.allow_unknown, items, &mut st)?;
+                            }
+                        }
+                    }
+                }
+            } else if d.attrs_field.is_some() {
+                match &d.forward {
+                    Forward::All => forwarded += 1,
+                    Forward::Only(ns) if ns.contains(&aname.as_str()) => forwarded += 1,
+                    _ => {}
+                }
+            }
+        }
+        if let Some(AttrsField::With(site)) = &d.attrs_field {
+            if let Err(ls) = self.seam_site(*site, "attrs_with")? {
+                st.leaves.extend(ls);
+            }
+        }
+        // shape validation
+        match (&d.supports, view.body, view.vfields) {
+            (Some(Supports::Sets { structs, enums }), Some(body), _) => match body {
+                Body::Enum(vs) => {
+                    if enums.is_empty() {
+                        self.mistake("shape");
+                        st.leaves.push(shape_leaf("enum"));
+                    } else {
+                        for v in vs {
+                            let (shape, desc) = shape_of(&v.fields);
+                            if !enums.accepts(shape) {
+                                self.mistake("shape");
+                                st.leaves.push(shape_leaf(desc));
+                            }
+                        }
+                    }
+                }
+                Body::Struct(f) => {
+                    if structs.is_empty() {
+                        self.mistake("shape");
+                        st.leaves.push(shape_leaf("struct"));
+                    } else {
+                        let (shape, desc) = shape_of(f);
+                        if !structs.accepts(shape) {
+                            self.mistake("shape");
+                            st.leaves.push(shape_leaf(desc));
+                        }
+                    }
+                }
+                Body::Union(_) => {
+                    // "a union satisfies no struct or enum word (an error, never a crash)"
+                    self.mistake("shape");
+                    self.mistake("probe:union_reached_shape_validation");
+                    st.leaves.push(Leaf { msg: Msg::Any, path: vec![], span: SpanExp::Unset, kind: "shape" });
+                }
+            },
+            (Some(Supports::Variant(set)), _, Some(vf)) => {
+                let (shape, desc) = shape_of(vf);
+                if !set.accepts(shape) {
+                    self.mistake("shape");
+                    st.leaves.push(shape_leaf(desc));
+                }
+            }
+            _ => {}
+        }
+        let has_cdefault = d.from_ident.is_some();
+        self.finish_checks(&d.fields, has_cdefault, &mut st)?;
+        if !st.leaves.is_empty() {
+            return Ok(Err(st.leaves));
+        }
+        let mut inherited: BTreeMap<&'static str, Val> = BTreeMap::new();
+        if let Some(site) = d.from_ident {
+            self.seam_infallible(site, "from_ident")?;
+            for f in &d.fields {
+                inherited.insert(
+                    f.rust,
+                    match &f.ty {
+                        Ty::Opt(_) => Val::None,
+                        _ => Val::Tok(Tok::FromIdent(f.rust.to_string())),
+                    },
+                );
+            }
+        }
+        let mut out: Vec<(String, Val)> = Vec::new();
+        if d.has_ident {
+            out.push((
+                "ident".into(),
+                match (view.ident, &d.kind) {
+                    (Some(i), _) => Val::S(i.to_string()),
+                    (None, _) => Val::None,
+                },
+            ));
+        }
+        // the body layer: only reached when the attribute layer is clean
+        if let Some(g) = &d.generics {
+            match g {
+                GenericsDesc::Probe(site) => {
+                    if let Err(ls) = self.seam_site(*site, "from_generics")? {
+                        return Ok(Err(ls));
+                    }
+                    out.push(("generics".into(), Val::Opaque));
+                }
+                GenericsDesc::Full(tr) => {
+                    let mut params = Vec::new();
+                    for tp in view.generics {
+                        if tp.kind == "type" {
+                            let v = ElemView { attrs: &tp.attrs, ident: Some(&tp.name), body: None, generics: &[], vfields: None };
+                            match self.elem_parse(tr, &v)? {
+                                Ok(x) => params.push(x),
+                                // conversion of generics stops at the first failing parameter
+                                Err(ls) => return Ok(Err(ls)),
+                            }
+                        } else {
+                            params.push(Val::Opaque);
+                        }
+                    }
+                    out.push(("generics".into(), Val::Seq(params)));
+                }
+            }
+        }
+        if d.attrs_field.is_some() {
+            out.push(("attrs".into(), Val::U(forwarded)));
+        }
+        if let (Some(dd), Some(body)) = (&d.data, view.body) {
+            match dd {
+                DataDesc::With(site) => {
+                    if let Err(ls) = self.seam_site(*site, "data_with")? {
+                        return Ok(Err(ls));
+                    }
+                    out.push(("data".into(), Val::Opaque));
+                }
+                DataDesc::Data { variant, field } => match self.data_try_from(variant, field, body)? {
+                    Ok(v) => out.push(("data".into(), v)),
+                    Err(ls) => return Ok(Err(ls)),
+                },
+            }
+        }
+        if let (Some(leaf_ty), Some(vf)) = (&d.variant_fields, view.vfields) {
+            match self.fields_try_from(leaf_ty, vf)? {
+                Ok(v) => out.push(("fields".into(), v)),
+                Err(ls) => return Ok(Err(ls)),
+            }
+        }
+        let fields_out = self.build_fields(&d.fields, &inherited, &mut st)?;
+        out.extend(fields_out);
+        // keep the field order of the hand-written Observe impls: magic first, then darling fields,
+        // except receivers observed through observe_struct! (declaration order)
+        Ok(Ok(Val::Struct(d.name.to_string(), reorder(d.name, out))))
+    }
+
+    fn body_field(&mut self, leaf_ty: &BodyLeaf, fd: &FieldDoc) -> M<Conv> {
+        match leaf_ty {
+            BodyLeaf::Unit => Ok(Ok(Val::Unit)),
+            BodyLeaf::Recv(n) => {
+                let v = ElemView { attrs: &fd.attrs, ident: fd.name.as_deref(), body: None, generics: &[], vfields: None };
+                self.elem_parse(n, &v)
+            }
+            BodyLeaf::Probe(_) => {
+                *self.item_calls.entry(fd.id).or_insert(0) += 1;
+                let key = Key::Item(fd.id);
+                match self.faults_get(&key) {
+                    Some(f) => Ok(Err(self.fire_own(&key, &f, Some((fd.r_ty, fd.r_ty)))?)),
+                    None => Ok(Ok(Val::Tok(Tok::Item(fd.id)))),
+                }
+            }
+        }
+    }
+
+    fn faults_get(&self, key: &Key) -> Option<Fault> {
+        self.faults_ref().get(key).cloned()
+    }
+
+    pub fn fields_try_from(&mut self, leaf_ty: &BodyLeaf, fields: &FieldsDoc) -> M<Conv> {
+        let mut leaves = Vec::new();
+        let mut vals = Vec::new();
+        match fields {
+            FieldsDoc::Unit => {}
+            FieldsDoc::Named(fs) => {
+                for fd in fs {
+                    match self.body_field(leaf_ty, fd)? {
+                        Ok(v) => vals.push(v),
+                        Err(mut ls) => {
+                            if let Some(n) = &fd.name {
+                                at(&mut ls, Seg::Name(n.clone()));
+                            }
+                            leaves.extend(ls);
+                        }
+                    }
+                }
+            }
+            FieldsDoc::Tuple(fs) => {
+                for fd in fs {
+                    match self.body_field(leaf_ty, fd)? {
+                        Ok(v) => vals.push(v),
+                        Err(ls) => leaves.extend(ls),
+                    }
+                }
+            }
+        }
+        if leaves.is_empty() {
+            Ok(Ok(Val::Seq(vals)))
+        } else {
+            Ok(Err(leaves))
+        }
+    }
+
+    fn body_variant(&mut self, leaf_ty: &BodyLeaf, v: &VariantDoc) -> M<Conv> {
+        match leaf_ty {
+            BodyLeaf::Unit | BodyLeaf::Probe(_) => Ok(Ok(Val::Unit)),
+            BodyLeaf::Recv(n) => {
+                let view = ElemView { attrs: &v.attrs, ident: Some(&v.name), body: None, generics: &[], vfields: Some(&v.fields) };
+                self.elem_parse(n, &view)
+            }
+        }
+    }
+
+    pub fn data_try_from(&mut self, variant: &BodyLeaf, field: &BodyLeaf, body: &Body) -> M<Conv> {
+        match body {
+            Body::Struct(f) => self.fields_try_from(field, f),
+            Body::Enum(vs) => {
+                let mut leaves = Vec::new();
+                let mut vals = Vec::new();
+                for v in vs {
+                    match self.body_variant(variant, v)? {
+                        Ok(x) => vals.push(x),
+                        Err(ls) => leaves.extend(ls),
+                    }
+                }
+                if leaves.is_empty() {
+                    Ok(Ok(Val::Seq(vals)))
+                } else {
+                    Ok(Err(leaves))
+                }
+            }
+            Body::Union(_) => {
+                self.mistake("union");
+                Ok(Err(vec![leaf("union", "Unions are not supported", SpanExp::Unset)]))
+            }
+        }
+    }
+}
+
+/// Put the model's fields in the order the receiver's `Observe` impl lists them.
+fn reorder(name: &str, mut out: Vec<(String, Val)>) -> Vec<(String, Val)> {
+    let order: &[&str] = match name {
+        "FR2" => &["attrs", "rest"],
+        "FR3" => &["attrs", "p"],
+        "DI2" => &["attrs", "data", "q"],
+        "DI3" => &["data", "generics", "p"],
+        "DI6" => &["data", "p"],
+        "AT2" => &["attrs", "e"],
+        _ => return out,
+    };
+    let mut sorted = Vec::new();
+    for k in order {
+        if let Some(i) = out.iter().position(|(n, _)| n == k) {
+            sorted.push(out.remove(i));
+        }
+    }
+    sorted.extend(out);
+    sorted
 }
